@@ -16,20 +16,28 @@
      velocity/acceleration formulas (2e-2g); VELOCIMETER, GYRO, ACCELEROMETER, FORCE, TORQUE, MAGNETOMETER (2h); the
      copying sensors (2i); BALLQUAT (2j).  Over ℝ: ACCELEROMETER = R_siteᵀ · FRAMELINACC(site) for proper rotations
      (2k); velocimeter/gyro preserve length (2l); BALLQUAT, `_get_quat`, FRAMEQUAT are unit quaternions (2m-2o); a frame
-     relative to itself has identity orientation (2p).
+     relative to itself has identity orientation (2p).  Limit sensors: `_limit_pos/_vel/_frc` write iff the row is a
+     limit row with `efc_id == sensor_objid` AND row kind = sensor kind, value through the cutoff stage (2q-2t).
   3. energy kernels (K = ℝ unless noted): exact write list of the gravity kernel (generic K) = −m g·xipos, linear in g
      (3a-3c); tendon springs with the dead band, zero inside, ≥ 0 for linear k ≥ 0 (3d, 3e); slide/hinge, ball, free
      joint springs = poly_potential of the displacement / quaternion distance (3f, 3g); ½k x², ≥ 0, zero at the
      reference (3f); all joint springs ≥ 0 for linear k ≥ 0 (3h).
-  4. gating on the host graph: how often energy_pos / energy_vel run in each of the 16 configurations of (ENERGY flag,
-     SENSOR disable flag, e_potential sensor, e_kinetic sensor) (4a); equals MuJoCo's rule except in ONE configuration
-     (4b, see C07Witness); d.energy zeroed iff flag off (4c); order of the energy kernels and of the sensor kernel (4d).
+  4. (in Props/C07Host.lean) gating on the host graph: how often energy_pos / energy_vel run in each of the 16 configurations of (ENERGY flag,
+     SENSOR disable flag, e_potential sensor, e_kinetic sensor) (4.0, 4a); equals MuJoCo's rule in ALL 16 (4b
+     `energy_gating`); d.energy zeroed iff flag off (4c); order of the energy kernels and of the sensor kernel (4d).
 
+  SCOPE of the Spec: `pointAcc` is the classical mj_objectAcceleration formula; MuJoCo 3.13 additionally reports 0 for
+  objects on bodies welded to the world (observed, C07Witness W6) — 2f, 2h (accelerometer), 2k describe MuJoCo for the
+  other bodies.
   ASSUMED (hypotheses): `site_xmat` is a proper rotation (2k, 2l); xquat / model frame quaternions have unit norm
   (2n-2p); CONTACT sensors never go through `_write_scalar` (true of sensor.py: `_sensor_acc` stores them directly).
 
-  FALSE of the code (Props/C07Witness.lean): touch sensors ignore their cutoff; ENERGY flag + energy sensor + sensors
-  disabled leaves d.energy stale; BALLQUAT of a zero quaternion is (0,0,0,1), MuJoCo gives (1,0,0,0).
+  FALSE of the code (Props/C07Witness.lean): touch sensors ignore their cutoff; with the ENERGY flag off d.energy is
+  zeroed although an energy sensor computed it (MuJoCo keeps it); accelerometer/framelinacc on bodies welded to the world
+  report −gravity (MuJoCo 3.13: 0); BALLQUAT of a zero quaternion is (0,0,0,1), MuJoCo gives
+  (1,0,0,0).
+  REPAIRED in /repo after this check found them (now theorems): limit sensors compared only the id, not the row kind
+  (2q-2t); ENERGY flag + energy sensor + sensors disabled left d.energy stale (4b).
 
   MISSING (C07_partial): `_write_vector`, `_get_mat`, `_frame_pos`, `_frame_axis`, `_frame_linvel`, `_frame_angvel`, the
   dispatch kernels `_sensor_pos/_vel/_acc`, `_energy_pos_zero`, the tiled kinetic-energy kernel, `_sensor_tactile` and
@@ -39,7 +47,6 @@
   also evaluates the Spec formulas on mujoco_warp's own Data arrays.  Numerical agreement with MuJoCo C is sampled.
 -/
 import MjwVerif.Lemmas.C07
-import MjwVerif.Gen.Host
 
 set_option linter.unusedVariables false
 set_option linter.unusedSimpArgs false
@@ -403,6 +410,127 @@ example : ∀ i : Int, qn2 ((fun (_ _ : Int) => (⟨1, 0, 0, 0⟩ : Q ℝ)) 0 i)
 example : IsRotation ((fun (_ _ : Int) => (⟨0, -1, 0, 1, 0, 0, 0, 0, 1⟩ : M33 ℝ)) 0 0) := isRotation_quarter
 
 
+/-! ## 2'. limit sensors (`_limit_pos`, `_limit_vel`, `_limit_frc`) -/
+
+section limit
+variable {K : Type} [Scalar K]
+
+/-- the (identity) renaming the translator wraps around the call of `_write_scalar` -/
+abbrev limitRename : List (String × String) :=
+  [("sensor_type", "sensor_type"), ("sensor_datatype", "sensor_datatype"), ("sensor_adr", "sensor_adr"), ("sensor_cutoff", "sensor_cutoff")]
+
+/-- (2q) **`_limit_pos` writes iff the row is a limit row whose id is the sensor's object AND whose kind matches the
+    sensor's kind** (joint row ↔ JOINTLIMITPOS = 20, tendon row ↔ TENDONLIMITPOS = 23), and then it hands
+    `efc_pos − efc_margin` to the cutoff stage; in every other case it writes nothing.
+    (Before /repo commit "fix: joint-limit and tendon-limit sensors read each other's constraint rows" the kind was
+    not compared; found by this property's check.) -/
+theorem limit_pos_writes (stype sdt sobj sadr : Int → Int) (scut : Int → K) (ladr ne nf nl : Int → Int)
+    (etype eid : Int → Int → Int) (epos emargin sdata : Int → Int → K) (w row k : Int) :
+    _limit_pos stype sdt sobj sadr scut ladr ne nf nl etype eid epos emargin sdata w row k
+      = if isLimitRow (ne w) (nf w) (nl w) row ∧ limitRowFeeds 20 23 (etype w row) (eid w row) (stype (ladr k)) (sobj (ladr k)) then
+          Write.renameAll limitRename
+            (_write_scalar_A_A_A_A_I_F_A stype sdt sadr scut (ladr k) (epos w row - emargin w row) (sdata w))
+        else [] := by
+  unfold _limit_pos isLimitRow limitRowFeeds
+  by_cases h1 : row < ne w + nf w
+  · have : ¬ ne w + nf w ≤ row := not_le.mpr h1
+    simp [h1, this]
+  by_cases h2 : ne w + nf w + nl w ≤ row
+  · have : ¬ row < ne w + nf w + nl w := not_lt.mpr h2
+    simp [h2, this]
+  have h1' : ne w + nf w ≤ row := not_lt.mp h1
+  have h2' : row < ne w + nf w + nl w := not_le.mp h2
+  by_cases hid : eid w row = sobj (ladr k)
+  · by_cases hk : (etype w row = 3 ∧ stype (ladr k) = 20) ∨ (etype w row = 4 ∧ stype (ladr k) = 23)
+    · rcases hk with ⟨a, b⟩ | ⟨a, b⟩ <;> simp [h1, h2, h1', h2', hid, a, b]
+    · have hb : ((decide (etype w row = 3) && decide (stype (ladr k) = 20)) || (decide (etype w row = 4) && decide (stype (ladr k) = 23))) = false := by
+        rw [Bool.eq_false_iff]; intro h; apply hk; simpa using h
+      simp only [h1, h2, hid, hb, hk, h1', h2']
+      simp
+  · simp [h1, h2, hid, h1', h2']
+
+/-- (2r) the same for `_limit_vel` (JOINTLIMITVEL = 21, TENDONLIMITVEL = 24; value `efc_vel`) -/
+theorem limit_vel_writes (stype sdt sobj sadr : Int → Int) (scut : Int → K) (ladr ne nf nl : Int → Int)
+    (etype eid : Int → Int → Int) (evel sdata : Int → Int → K) (w row k : Int) :
+    _limit_vel stype sdt sobj sadr scut ladr ne nf nl etype eid evel sdata w row k
+      = if isLimitRow (ne w) (nf w) (nl w) row ∧ limitRowFeeds 21 24 (etype w row) (eid w row) (stype (ladr k)) (sobj (ladr k)) then
+          Write.renameAll limitRename (_write_scalar_A_A_A_A_I_F_A stype sdt sadr scut (ladr k) (evel w row) (sdata w))
+        else [] := by
+  unfold _limit_vel isLimitRow limitRowFeeds
+  by_cases h1 : row < ne w + nf w
+  · have : ¬ ne w + nf w ≤ row := not_le.mpr h1
+    simp [h1, this]
+  by_cases h2 : ne w + nf w + nl w ≤ row
+  · have : ¬ row < ne w + nf w + nl w := not_lt.mpr h2
+    simp [h2, this]
+  have h1' : ne w + nf w ≤ row := not_lt.mp h1
+  have h2' : row < ne w + nf w + nl w := not_le.mp h2
+  by_cases hid : eid w row = sobj (ladr k)
+  · by_cases hk : (etype w row = 3 ∧ stype (ladr k) = 21) ∨ (etype w row = 4 ∧ stype (ladr k) = 24)
+    · rcases hk with ⟨a, b⟩ | ⟨a, b⟩ <;> simp [h1, h2, h1', h2', hid, a, b]
+    · have hb : ((decide (etype w row = 3) && decide (stype (ladr k) = 21)) || (decide (etype w row = 4) && decide (stype (ladr k) = 24))) = false := by
+        rw [Bool.eq_false_iff]; intro h; apply hk; simpa using h
+      simp only [h1, h2, hid, hb, hk, h1', h2']
+      simp
+  · simp [h1, h2, hid, h1', h2']
+
+/-- (2s) the same for `_limit_frc` (JOINTLIMITFRC = 22, TENDONLIMITFRC = 25; value `efc_force`) -/
+theorem limit_frc_writes (stype sdt sobj sadr : Int → Int) (scut : Int → K) (ladr ne nf nl : Int → Int)
+    (etype eid : Int → Int → Int) (efrc sdata : Int → Int → K) (w row k : Int) :
+    _limit_frc stype sdt sobj sadr scut ladr ne nf nl etype eid efrc sdata w row k
+      = if isLimitRow (ne w) (nf w) (nl w) row ∧ limitRowFeeds 22 25 (etype w row) (eid w row) (stype (ladr k)) (sobj (ladr k)) then
+          Write.renameAll limitRename (_write_scalar_A_A_A_A_I_F_A stype sdt sadr scut (ladr k) (efrc w row) (sdata w))
+        else [] := by
+  unfold _limit_frc isLimitRow limitRowFeeds
+  by_cases h1 : row < ne w + nf w
+  · have : ¬ ne w + nf w ≤ row := not_le.mpr h1
+    simp [h1, this]
+  by_cases h2 : ne w + nf w + nl w ≤ row
+  · have : ¬ row < ne w + nf w + nl w := not_lt.mpr h2
+    simp [h2, this]
+  have h1' : ne w + nf w ≤ row := not_lt.mp h1
+  have h2' : row < ne w + nf w + nl w := not_le.mp h2
+  by_cases hid : eid w row = sobj (ladr k)
+  · by_cases hk : (etype w row = 3 ∧ stype (ladr k) = 22) ∨ (etype w row = 4 ∧ stype (ladr k) = 25)
+    · rcases hk with ⟨a, b⟩ | ⟨a, b⟩ <;> simp [h1, h2, h1', h2', hid, a, b]
+    · have hb : ((decide (etype w row = 3) && decide (stype (ladr k) = 22)) || (decide (etype w row = 4) && decide (stype (ladr k) = 25))) = false := by
+        rw [Bool.eq_false_iff]; intro h; apply hk; simpa using h
+      simp only [h1, h2, hid, hb, hk, h1', h2']
+      simp
+  · simp [h1, h2, hid, h1', h2']
+
+end limit
+
+/-- (2t) over ℝ, with the cutoff stage resolved: thread `(w, row, k)` of `_limit_pos` stores MuJoCo's
+    `apply_cutoff(efc_pos − efc_margin)` into the sensor's cell iff row kind and sensor kind agree and
+    `efc_id == sensor_objid`; otherwise it stores nothing (the cell keeps the 0 that `forward()` put there, MuJoCo's
+    value for an inactive limit) -/
+theorem limit_pos_spec (stype sdt sobj sadr : Int → Int) (scut : Int → ℝ) (ladr ne nf nl : Int → Int)
+    (etype eid : Int → Int → Int) (epos emargin sdata : Int → Int → ℝ) (w row k : Int) :
+    _limit_pos stype sdt sobj sadr scut ladr ne nf nl etype eid epos emargin sdata w row k
+      = if isLimitRow (ne w) (nf w) (nl w) row ∧ limitRowFeeds 20 23 (etype w row) (eid w row) (stype (ladr k)) (sobj (ladr k)) then
+          [⟨"out", [sadr (ladr k)],
+            WVal.f (applyCutoff (stype (ladr k)) (sdt (ladr k)) (scut (ladr k)) (epos w row - emargin w row)), WKind.set⟩]
+        else [] := by
+  rw [limit_pos_writes]
+  by_cases h : isLimitRow (ne w) (nf w) (nl w) row ∧ limitRowFeeds 20 23 (etype w row) (eid w row) (stype (ladr k)) (sobj (ladr k))
+  · have hct : stype (ladr k) ≠ SENS_CONTACT := by
+      rcases h.2.2 with ⟨_, b⟩ | ⟨_, b⟩ <;> (rw [b]; decide)
+    rw [if_pos h, if_pos h, write_scalar_spec _ _ _ _ _ _ _ hct]
+    simp [Write.renameAll, Write.rename]
+  · rw [if_neg h, if_neg h]
+
+/-- non-vacuity and the repaired case: a JOINTLIMITPOS sensor (20) of joint 0 with one active limit row of TENDON 0
+    (kind 4, id 0) stores nothing; with a joint row (kind 3) it stores `efc_pos − efc_margin` -/
+example : _limit_pos (fun _ => 20) (fun _ => 0) (fun _ => 0) (fun _ => 0) (fun _ => (0 : ℝ)) (fun _ => 0)
+    (fun _ => 0) (fun _ => 0) (fun _ => 1) (fun _ _ => 4) (fun _ _ => 0) (fun _ _ => (-3 / 10 : ℝ)) (fun _ _ => 0)
+    (fun _ _ => 0) 0 0 0 = [] := by
+  rw [limit_pos_spec]; simp [isLimitRow, limitRowFeeds]
+example : _limit_pos (fun _ => 20) (fun _ => 0) (fun _ => 0) (fun _ => 0) (fun _ => (0 : ℝ)) (fun _ => 0)
+    (fun _ => 0) (fun _ => 0) (fun _ => 1) (fun _ _ => 3) (fun _ _ => 0) (fun _ _ => (-3 / 10 : ℝ)) (fun _ _ => 0)
+    (fun _ _ => 0) 0 0 0 = [⟨"out", [0], WVal.f (-3 / 10), WKind.set⟩] := by
+  rw [limit_pos_spec]; simp [isLimitRow, limitRowFeeds, applyCutoff, sgt, slit]
+
 /-! ## 3. energy -/
 
 /-- (3a) exact write list of the gravity kernel: thread `(w, b)` subtracts `(m_{b+1} g·xipos_{b+1}, 0)` from
@@ -591,72 +719,5 @@ example : potential (_energy_pos_passive_joint (fun _ _ => (1 / 2 : ℝ)) (fun _
   rw [(energy_joint_slide_hinge_linear _ _ _ _ _ _ _ _ _ _ _ _ (Or.inr rfl) rfl).1]
   have h5 : (Scalar.lit 5 (-1) : ℝ) = 1 / 2 := by simp only [slit]; norm_num
   simp only [springPotential, h5, hmul, hsub]; norm_num
-
-/-! ## 4. when is the energy evaluated (host graph of `forward()`, Gen/Host.lean) -/
-
-open Mjw.HostGraph Mjw.Gen.Host
-
-def ids (l : List String) : List Nat := l.map nameId
-
-/-- host conditions that are FALSE in the configuration (ENERGY enable flag `e`, SENSOR disable flag `s`, model has an
-    `e_potential` sensor `p` / an `e_kinetic` sensor `k`); every other host condition is kept -/
-def falseConds (e s p k : Bool) : List String :=
-  (if e then ["not (m.opt.enableflags & EnableBit.ENERGY)"] else ["m.opt.enableflags & EnableBit.ENERGY"])
-  ++ (if s then ["not (m.opt.disableflags & DisableBit.SENSOR)"] else [])
-  ++ (if p then ["m.sensor_e_potential == 0"] else ["m.sensor_e_potential"])
-  ++ (if k then ["m.sensor_e_kinetic == 0"] else ["m.sensor_e_kinetic"])
-
-/-- events of `forward()` that run in the configuration -/
-def eventsIn (e s p k : Bool) : List Event :=
-  let f := ids (falseConds e s p k)
-  forward_forward.filter (fun ev => ev.conds.all (fun c => !f.contains c))
-
-/-- how often `forward()` launches `kernel` in the configuration -/
-def launchCount (e s p k : Bool) (kernel : String) : Nat :=
-  let kid := nameId kernel
-  ((eventsIn e s p k).filter (fun ev => ev.kind == EvKind.launch && ev.subject == kid)).length
-
-/-- (4a) the potential energy is (re)initialised and accumulated once by the sensor stage iff an `e_potential` sensor
-    exists and sensors are enabled, and once by `_energy_pos` iff the ENERGY flag is set and no such sensor exists;
-    likewise for the kinetic energy.  In particular it is never evaluated twice. -/
-theorem energy_launch_counts : ∀ e s p k : Bool,
-    launchCount e s p k "sensor._energy_pos_zero" = (if p && !s then 1 else 0) + (if e && !p then 1 else 0)
-    ∧ launchCount e s p k "sensor._energy_vel_kinetic.energy_vel_kinetic" = (if k && !s then 1 else 0) + (if e && !k then 1 else 0) := by
-  decide +kernel
-
-/-- (4b) **agreement with MuJoCo's gating** (`energyEvaluated`: flag set, or sensor present and sensors enabled) in
-    every configuration except "ENERGY flag set, energy sensor present, sensors disabled" (see C07Witness) -/
-theorem energy_gating_partial : ∀ e s p k : Bool,
-    (¬ (e = true ∧ p = true ∧ s = true) →
-      decide (0 < launchCount e s p k "sensor._energy_pos_zero") = energyEvaluated e s p)
-    ∧ (¬ (e = true ∧ k = true ∧ s = true) →
-      decide (0 < launchCount e s p k "sensor._energy_vel_kinetic.energy_vel_kinetic") = energyEvaluated e s k) := by
-  decide +kernel
-
-/-- (4c) `d.energy` is zeroed by the host iff the ENERGY flag is off (as `mj_forward` leaves it at zero then) -/
-theorem energy_zeroed_iff_flag_off : ∀ e s p k : Bool,
-    ((eventsIn e s p k).filter (fun ev => ev.kind == EvKind.hostWrite && ev.subject == nameId "d.energy")).length
-      = if e then 0 else 1 := by
-  decide +kernel
-
-/-- energy-related events (kernels of `energy_pos`/`energy_vel`, the position-sensor kernel that reads `d.energy`,
-    the host zeroing) in program order, mul_m variants dropped -/
-def energySeq (e s p k : Bool) : List String :=
-  let keep := ids ["sensor._energy_pos_zero", "sensor._energy_pos_gravity", "sensor._energy_pos_passive_joint",
-    "sensor._energy_pos_passive_tendon", "sensor._energy_vel_kinetic.energy_vel_kinetic", "sensor._sensor_pos", "d.energy"]
-  (((eventsIn e s p k).filter (fun ev => (ev.kind == EvKind.launch || ev.kind == EvKind.hostWrite) && keep.contains ev.subject)).map
-    (fun ev => name ev.subject))
-
-/-- (4d) order with energy sensors and the flag off: zero → gravity → joint springs → tendon springs → kinetic → the
-    sensor kernel copies `d.energy` → `d.energy` is zeroed;  with the flag on and no energy sensor: sensors first, then
-    the same accumulation order, kinetic after the velocity stage -/
-theorem energy_sequences :
-    energySeq false false true true
-      = ["sensor._energy_pos_zero", "sensor._energy_pos_gravity", "sensor._energy_pos_passive_joint",
-         "sensor._energy_pos_passive_tendon", "sensor._energy_vel_kinetic.energy_vel_kinetic", "sensor._sensor_pos", "d.energy"]
-    ∧ energySeq true false false false
-      = ["sensor._sensor_pos", "sensor._energy_pos_zero", "sensor._energy_pos_gravity", "sensor._energy_pos_passive_joint",
-         "sensor._energy_pos_passive_tendon", "sensor._energy_vel_kinetic.energy_vel_kinetic"] := by
-  decide +kernel
 
 end Mjw.Props.C07
